@@ -34,7 +34,9 @@ Normalisations the oracle applies (and nothing else):
     is transport as well.  Inline ``multipart/related`` parts and a message carried without any Content-Disposition
     (forwarded inline) may be reported as attachments or not — when they are, they must be exact; the carried
     message's text is never the carrier's body.  A part without filename / name parameter has no name to be exact
-    about: "", None or the readers' constant placeholder "attachment" are accepted, an invented name is not;
+    about: "", None or the readers' constant placeholder "attachment" are accepted, an invented name is not.  Names are
+    written in all three spellings in use: plain / RFC 2231 (what the stdlib writes), an RFC 2047 encoded word inside the
+    quoted filename parameter, and an encoded word in the Content-Type name parameter only - the decoded name is the name;
   * supported attachments == the attached file on its own: the file on its own is routed by its *name* (README: "file
     extensions (primary) ... MIME types (fallback)"), so an attachment whose declared type is a supported one but not
     the canonical type of its extension (.csv as application/vnd.ms-excel, .docx as application/zip, .html as
@@ -735,6 +737,8 @@ def main(run, only_cases=None):
     run.require("mailboxes_escaping_lookalikes_only", c.get("mailbox_escape_lookalikes-only", 0), run.n(60, 900))
     run.require("unescaped_non_separator_from_lines_in_mailboxes", c.get("unescaped_non_separator_from_lines_in_mailboxes", 0), run.n(60, 900))
     run.require("unescaped_from_lines_with_a_year_inside", c.get("unescaped_from_lines_with_a_year_inside", 0), run.n(15, 200))
+    run.require("messages_with_rfc2047_attachment_names", c.get("messages_with_name_rfc2047_attachment_names", 0), run.n(80, 1200))
+    run.require("messages_with_rfc2047_content_type_name_only", c.get("messages_with_name_rfc2047_name_attachment_names", 0), run.n(40, 600))
     run.require("nested_message_variants_seen", len([k for k in c if k.startswith("nested_variant_")]), len(NESTED_VARIANTS))
     run.require("attachments_with_other_type_than_their_name_says", c.get("attachments_with_other_type_than_their_name_says", 0), run.n(100, 1500))
     run.require("type_name_mismatch_kinds_seen", len([k for k in c if k.startswith("mismatch_")]), len(G.MISMATCHED))
@@ -907,6 +911,8 @@ def _count_message(run, spec, truth, r):
         if f.startswith("att:mismatch:"):
             run.count("attachments_with_other_type_than_their_name_says")
             run.count("mismatch_" + f[13:])
+        elif f.startswith("att:name-rfc2047"):
+            run.count("messages_with_" + f[4:].replace("-", "_") + "_attachment_names")
         elif f.startswith("att:encrypted:"):
             run.count("messages_with_encrypted_attachment")
         elif f == "att:nameless" or f == "nested:nameless":
